@@ -662,7 +662,7 @@ Section Json.
       Ok (v :: l, s3)
     end end.
 
-  Definition jdec_fuel (bs : bytes) : nat := 2 * length bs + 4.
+  Definition jdec_fuel (bs : bytes) : nat := 3 * length bs + 4.
 
   Definition is_trailing_ws (c : N) : bool := (c =? 32) || (c =? 0) || (c =? 9) || (c =? 13) || (c =? 10).
 
@@ -682,3 +682,53 @@ Section Json.
       end
     end.
 End Json.
+
+(* ------------------------------------------------------------------ the property's domain *)
+
+(* assumption A2 as an executable predicate (the driver evaluates it on every sampled float):
+   the text is a JSON number; it has '.' or an exponent iff the float is not an integer below
+   1e21; and in that case at most 19 digits precede the '.' / exponent (so ParseInt stops at the
+   '.' with ErrSyntax before its accumulator can overflow) *)
+Definition float_text_ok (f : N) (t : bytes) : bool :=
+  json_number t &&
+  (if f64_integral_small f then negb (has_dot_or_e t)
+   else has_dot_or_e t && Nat.leb (int_prefix_len t) 19).
+
+(* the two shapes DAG-JSON reserves *)
+Definition reserved_shape (m : list (bytes * dm)) : bool :=
+  match m with
+  | [(k, DString _)] => bytes_eqb k slash
+  | [(k, DMap [(k2, DString _)])] => bytes_eqb k slash && bytes_eqb k2 bytes_word
+  | _ => false
+  end.
+
+Fixpoint nodup_keys {V} (m : list (bytes * V)) : bool :=
+  match m with
+  | [] => true
+  | (k, _) :: r => negb (existsb (bytes_eqb k) (map fst r)) && nodup_keys r
+  end.
+
+(* nesting as the decoder counts it: the reserved forms are maps to the depth check *)
+Fixpoint jdepth (v : dm) : N :=
+  match v with
+  | DList l => 1 + fold_right (fun x a => N.max (jdepth x) a) 0 l
+  | DMap m => 1 + fold_right (fun kv a => N.max (jdepth (snd kv)) a) 0 m
+  | DBytes _ | DLink _ => 1
+  | _ => 0
+  end.
+
+(* json_safe: finite floats accepted by [good_float], valid UTF-8 strings and keys, int64 ints,
+   byte-valued bytes, defined CIDs, distinct keys, none of the reserved shapes *)
+Fixpoint json_safe (cid_ok : bytes -> bool) (good_float : N -> bool) (v : dm) : bool :=
+  match v with
+  | DNull | DBool _ => true
+  | DInt z => in_int64 z
+  | DFloat f => f64_finite f && good_float f
+  | DString s => utf8_valid s
+  | DBytes b => bytes_ok b
+  | DLink c => cid_ok c
+  | DList l => forallb (json_safe cid_ok good_float) l
+  | DMap m =>
+    nodup_keys m && negb (reserved_shape m) &&
+    forallb (fun kv => utf8_valid (fst kv) && json_safe cid_ok good_float (snd kv)) m
+  end.
